@@ -14,6 +14,11 @@ Decided:
           RFC 7914 parameter checks; salsa20_8 runs 8 rounds with rotations {7,9,13,18}; scrypt()
           runs PBKDF2-HMAC-SHA256 with c = 1 before and after over buffers of p*128r, N*128r, 128r
   hmac    the PRF of all three KDFs: HMAC key preparation (expand / derive / create) and inner / outer order (shared with C08)
+  shape-eval Hmac (new / input / raw_result / reset) against RFC 2104 with an UNINTERPRETED digest (transcript -> fresh symbols), every
+             key length class x message split x {result, result again, reset + next message}; sizes derived from the code's
+             length constants.  Independent of how the code is organised; the structural rules stay as cross-checks
+             pbkdf2 against RFC 8018 with an uninterpreted PRF: DK = T_1 || T_2 || ... truncated, T_i = U_1 ^ ... ^ U_c, for
+             every output length up to three blocks, c in {1,2,3,5}, several salt lengths and PRF sizes
 Not decided: ROMix / BlockMix data flow and values."""
 import re
 
@@ -21,7 +26,7 @@ from .. import mir, pred, rules, ssa
 from ..mir import fmt, walk, const_val
 
 EXPLANATION = __doc__
-TECHNIQUE = "MIR def-use rule for counters (checked_add only), loop-body call-order rule, linear-form guard facts dominating the constructor aggregate, rotation census"
+TECHNIQUE = "MIR def-use rule for counters (checked_add only), loop-body call-order rule, linear-form guard facts dominating the constructor aggregate, rotation census; object-level bounded shape evaluation with an uninterpreted digest / PRF (transcript terms) against the RFC's defining term"
 
 
 def cn(fn, op):
